@@ -160,6 +160,19 @@ def unescGo (isAttr : Bool) : Option Str → Str → Option Str
 
 def unescape (isAttr : Bool) (s : Str) : Option Str := unescGo isAttr none s
 
+/-- References replaced and NOTHING else: no `Char` check, no normalisation.  The inverse the escaping layer
+alone has for EVERY string (also strings an XML 1.0 document cannot carry: C0 controls, U+FFFE/U+FFFF). -/
+def unescAnyGo : Option Str → Str → Option Str
+  | none, [] => some []
+  | some _, [] => none
+  | none, c :: cs =>
+      if c = '&' then unescAnyGo (some []) cs else (unescAnyGo none cs).map (c :: ·)
+  | some acc, c :: cs =>
+      if c = ';' then (decodeEntity acc).bind (fun ch => (unescAnyGo none cs).map (ch :: ·))
+      else unescAnyGo (some (acc ++ [c])) cs
+
+def unescAny (s : Str) : Option Str := unescAnyGo none s
+
 def unescAttrs : List (Str × Str) → Option (List (Str × Str))
   | [] => some []
   | (k, v) :: rest =>
